@@ -705,9 +705,9 @@ pub fn run_unit(prop: &str, tier: Tier, seed: u64, want_sample: bool) -> UnitRes
             let c = crate::proofcase::generate(prop, &mut rng, thorough(tier));
             absorb_any(&mut res, crate::anycase::AnyCase::Proof(c), want_sample);
         }
-        // a slice of C07 (and a smaller one of C02): models far beyond the enumerator (implication chains hundreds of
+        // a slice of C07 and C18 (and smaller ones of C01, C02): models far beyond the enumerator (implication chains hundreds of
         // propagations deep) with an analytic reference, under several configurations
-        "C07" | "C02" | "C18" if rng.chance(match prop { "C07" => 0.3, "C18" => 0.3, _ => 0.08 }) || std::env::var("VERIF_DEEP_ONLY").is_ok() => {
+        "C07" | "C02" | "C18" | "C01" if rng.chance(match prop { "C07" => 0.3, "C18" => 0.3, "C01" => 0.25, _ => 0.08 }) || std::env::var("VERIF_DEEP_ONLY").is_ok() => {
             let c = crate::deep::DeepCase::generate(prop, &mut rng, thorough(tier));
             absorb_any(&mut res, crate::anycase::AnyCase::Deep(c), want_sample);
         }
